@@ -29,7 +29,7 @@ use libhaystack::c_api::ResultType;
 use libhaystack::encoding::zinc::encode::to_zinc_string;
 use libhaystack::filter::{Filter, Filtered, ListFiltered};
 use libhaystack::val::*;
-use serde_json::json;
+use serde_json::{json, Value as J};
 use std::ffi::{CStr, CString};
 use std::os::raw::c_char;
 use std::ptr::{null, null_mut};
@@ -325,7 +325,15 @@ impl<'a> World<'a> {
                 let f: unsafe extern "C" fn(*const c_char, *const c_char) -> Option<Box<Value>> = if k == 10 { haystack_value_make_ref_with_dis } else { haystack_value_make_xstr };
                 let (a, b) = (self.text(), self.text());
                 let (ca, cb) = (cstr(&a), cstr(&b));
-                match self.rng.below(7) {
+                match self.rng.below(8) {
+                    // a multi-byte character cut between the end of the first and the start of the second argument:
+                    // each argument alone is not UTF-8 (their concatenation would be)
+                    7 => {
+                        let splits: [(&[u8], &[u8]); 4] = [(b"\xC3\0", b"\xA9\0"), (b"Bin\xE2\x82\0", b"\xACx\0"), (b"\xF0\0", b"\x9F\x98\x80\0"), (b"a\xF0\x9F\0", b"\x98\x80\0")];
+                        let (x, y) = splits[self.rng.below(4)];
+                        let r = f(x.as_ptr() as *const c_char, y.as_ptr() as *const c_char);
+                        self.expect_fail_make(&op, ArgClass::NonUtf8, r);
+                    }
                     0 => {
                         let r = f(null(), cb.as_ptr());
                         self.expect_fail_make(&op, ArgClass::Null, r);
@@ -1633,6 +1641,55 @@ pub fn run(ctx: &mut Ctx, c18: bool) {
     if c18 && ctx.begin("null-sweep", 0) {
         unsafe { null_sweep(ctx) };
         ctx.stratum("null-sweep-completed");
+    }
+    // ---- several threads, each with its own handles: the error slot and every result are per thread -----------
+    let ntrials = if cfg!(miri) { 0 } else { ctx.n(6, 60) };
+    for i in 0..ntrials {
+        if !ctx.begin("threads", i) {
+            continue;
+        }
+        let base = ctx.case_rng("threads", i).next_u64();
+        let nthreads = 2 + (base % 3) as usize;
+        let per_thread_ops = if ctx.quick() { 150 } else { 400 };
+        let (prop, tier, seed, shard, nshards) = (ctx.prop.clone(), ctx.tier, ctx.seed, ctx.shard, ctx.nshards);
+        let barrier = std::sync::Barrier::new(nthreads);
+        let results: Vec<(u64, Vec<(String, String, J)>)> = std::thread::scope(|s| {
+            let hs: Vec<_> = (0..nthreads)
+                .map(|t| {
+                    let barrier = &barrier;
+                    let prop = prop.clone();
+                    s.spawn(move || {
+                        let mut local = Ctx::new(&prop, tier, seed, shard, nshards);
+                        let ops;
+                        {
+                            let mut w = World::new(&mut local, Rng::new(crate::prng::mix(&[base, t as u64])));
+                            barrier.wait();
+                            for k in 0..per_thread_ops {
+                                unsafe { w.step() };
+                                if k % 16 == 0 {
+                                    std::thread::yield_now();
+                                }
+                            }
+                            unsafe { w.teardown() };
+                            ops = w.ops;
+                        }
+                        let v: Vec<(String, String, J)> = local.violations.values().map(|v| (v.sig.clone(), v.what.clone(), v.witness.clone())).collect();
+                        (ops, v)
+                    })
+                })
+                .collect();
+            hs.into_iter().map(|h| h.join().expect("C API worker thread")).collect()
+        });
+        let mut total = 0;
+        for (ops, vs) in results {
+            total += ops;
+            for (sig, what, wit) in vs {
+                ctx.violation(&format!("{sig}:with-{nthreads}-threads"), &format!("(one of {nthreads} threads, each using only its own handles) {what}"), wit);
+            }
+        }
+        ctx.eval("threads", crate::prng::mix(&[base, nthreads as u64]), true);
+        ctx.evaluations += total;
+        ctx.note_add("api_calls_on_concurrent_threads", total);
     }
     let (nseq, nops) = if cfg!(miri) { (ctx.n(3, 3), 30) } else if ctx.quick() { (ctx.n(130, 130), 60) } else { (ctx.n(1250, 1250), 200) };
     for i in 0..nseq {
